@@ -23,3 +23,15 @@ add('C18','exploration',RM+'stateful request sequences into the real ProcessRequ
 add('C19','exploration',RM+'real Client<->Server.Listen over in-memory RTU and TCP links with a man-in-the-middle corruptor; value/count oracle from the server register file',
     'Every client method is driven against a live server over both framings for addresses, counts, unit ids and 70000 consecutive TCP transactions; returned values and counts are compared with the server\'s registers; damaged frames must be rejected; conversions checked bit-exact (2^16 exhaustive, 32-bit sampled).',
     'In-memory packet-preserving duplex stands for a serial line behind respreader; net.Pipe stands for TCP.','DESIGN.md 2/C19')
+add('C01','exploration',RM+'acknowledged bus writes to a live instance in generated orders/batchings, read back after every batch against a newest-wins register model',
+    'Each generated point set is delivered to fresh nodes and fresh edges of a real instance under several permutations, partitions and re-deliveries; after every acknowledged batch the node is read back and compared, field by field, with an argmax-timestamp model. Held on the deliveries generated.',
+    'Observation at the NATS API (p.*, nodes.*); equal timestamps, zero times and nodeType edge points not generated.','DESIGN.md 2/C01')
+add('C03','exploration',RM+'random graph histories on a live instance; after every operation all reported hashes vs a from-scratch Merkle hash of the same replies; storeVerify/storeMaint no-op monitor',
+    'Random histories (create, write, stale write, mirror, diamond, move, delete, undelete, -0.0) are applied to a fresh instance and after every operation every placement\'s reported hash is compared with an independent implementation of the documented definition; store maintenance must change nothing.',
+    'Independent CRC/XOR implementation is the trusted base; quiescence = harness is the only writer and all its writes are acknowledged.','DESIGN.md 2/C03')
+add('C05','exploration',RM+'must-refuse / look-alike / open-status requests against a live instance with a full-dump differ, an up.> tap at the reply barrier and a follow-up-write watchdog',
+    'Requests of every class the property says must be refused (and legal look-alikes) are sent to instances with random graphs; the monitor checks the reply, that nothing observable changed after any error reply (dump and rebroadcast stream), and that the instance keeps answering.',
+    'Barrier relies on NATS per-publisher ordering; process death by stack exhaustion is mapped to a violation by the wrapper.','DESIGN.md 2/C05')
+add('C06','exploration',RM+'up.> subscription drained at the reply barrier vs ancestor sets computed on the harness graph model, over enumerated graph shape classes',
+    'For every node and placement of graphs from eight shape classes an acknowledged write is made and the exact multiset of rebroadcast subjects and payloads is compared with the model\'s ancestor set (live edges for node points, any edges for edge points).',
+    'Barrier relies on NATS per-publisher ordering; stale writes and the legacy "none" parent are not generated.','DESIGN.md 2/C06')
